@@ -27,6 +27,7 @@ type c13Pair struct {
 	Name  string    `json:"name"`
 	Keep  bool      `json:"keep"`
 	Comp  compSpec  `json:"comp"` // compression of the sender: its large messages travel as Z frames, the small ones plain
+	Huge  bool      `json:"huge,omitempty"` // every second message of the pair is larger than 64 KiB (one frame that does not fit any write buffer)
 }
 
 type c13Op struct {
@@ -129,6 +130,20 @@ func genC13Case(r *rand.Rand, i int) c13Case {
 			c.Ops = append(c.Ops, c13Op{Op: "send", Pair: k})
 		}
 	}
+	if scenario == "constant" && i%10 == 5 {
+		// small frames followed at once by frames larger than 64 KiB, same ordered pair, nothing held back:
+		// whatever buffers the link's writer keeps, the bytes must leave in the order of the Write calls
+		c.Pairs = []c13Pair{{Kind: "send_pid", From: 1000 + uint64(i%250), To: 2000 + uint64(i%97), Keep: true, Huge: true}}
+		c.Ops = nil
+		for l := 0; l < c.Pool; l++ {
+			c.Ops = append(c.Ops, c13Op{Op: "release", Link: l})
+		}
+		for s := 0; s < 40; s++ {
+			c.Ops = append(c.Ops, c13Op{Op: "send", Pair: 0})
+		}
+		c.Tags = append(c.Tags, "constant-pool", "huge-frames")
+		return c
+	}
 	nops := len(c.Ops)
 	switch scenario {
 	case "grow":
@@ -221,11 +236,16 @@ func runC13Case(c c13Case) (o c13Obs) {
 	}
 	poolLen := c.Pool
 	var sent []string
+	hugeSent := map[int]bool{}
 	var sentPair []int
 	seqs := make([]int, len(c.Pairs))
 	p.coreB.result = func(cl *Call) error {
 		cl.Val = -1
-		if s, ok := cl.value.(string); ok {
+		s, ok := cl.value.(string)
+		if b, isb := cl.value.([]byte); isb {
+			s, ok = string(b), true
+		}
+		if ok {
 			for i := range sent {
 				if sent[i] == s {
 					cl.Val = i
@@ -246,12 +266,18 @@ func runC13Case(c c13Case) (o c13Obs) {
 		case "send":
 			pr := &c.Pairs[op.Pair]
 			v := c13Value(op.Pair, seqs[op.Pair], pr.Comp.Enable && (seqs[op.Pair]+op.Pair)%2 == 0)
+			var payload any = v
+			if pr.Huge && seqs[op.Pair]%2 == 1 {
+				v += strings.Repeat("h", 70000+seqs[op.Pair])
+				payload = []byte(v) // a string may not be longer than 65535 bytes
+				hugeSent[len(sent)] = true
+			}
 			seqs[op.Pair]++
 			m := msgSpec{Kind: pr.Kind, From: pr.From, To: pr.To, Alias: pr.Alias, Name: pr.Name, Keep: pr.Keep, Comp: pr.Comp, Ref: [3]uint64{uint64(len(sent)) + 1, 2, 3}}
 			sent = append(sent, v)
 			sentPair = append(sentPair, op.Pair)
 			o.PoolLens = append(o.PoolLens, poolLen)
-			if err := safeSend(p.connA, &m, v); err != nil {
+			if err := safeSend(p.connA, &m, payload); err != nil {
 				o.SendErr = append(o.SendErr, fmt.Sprintf("send %d (%s from %d) failed: %v", len(sent)-1, pr.Kind, pr.From, err))
 				if strings.HasPrefix(err.Error(), "panic") {
 					p.poisoned = true
@@ -337,7 +363,11 @@ func runC13Case(c c13Case) (o c13Obs) {
 				o.ZFrames++
 			}
 			for i, v := range sent {
-				if bytes.HasSuffix(inner, edfBytes(v)) {
+				var val any = v
+				if hugeSent[i] {
+					val = []byte(v)
+				}
+				if bytes.HasSuffix(inner, edfBytes(val)) {
 					o.Links[i] = li
 					o.Orders[i] = int(fr[6])
 				}
